@@ -153,7 +153,7 @@ func (e *Engine) Harnesses() []*Harness {
 
 func (e *Engine) newMachine(h *Harness, z *sym.Solver, item WorkItem) *Machine {
 	return &Machine{E: e, S: sym.NewStore(), Z: z, H: h, Vec: append([]int(nil), item.Vec...), verify: item.Verify,
-		Lim: e.Defaults, globals: map[*ssa.Global]*Object{}, inited: map[*ssa.Package]bool{},
+		Lim: e.Defaults, hints: item.Hints, globals: map[*ssa.Global]*Object{}, inited: map[*ssa.Package]bool{},
 		nameCount: map[string]int{}, Reached: map[string]bool{}, Bounds: map[string]int{},
 		StubsHit: map[string]bool{}, FuncsSeen: map[*ssa.Function]bool{}}
 }
@@ -207,7 +207,7 @@ func (e *Engine) RunHarness(h *Harness, z *sym.Solver) *HarnessResult {
 	res := &HarnessResult{H: h, Ends: map[string]int{}, Reached: map[string]bool{}, Bounds: map[string]int{},
 		Funcs: map[string]bool{}, Stubs: map[string]bool{}, Notes: map[string]bool{}, Unsupp: map[string]int{}, BoundMsgs: map[string]int{}}
 	q0, st0 := z.Queries, z.Time
-	work := []WorkItem{{nil, false}}
+	work := []WorkItem{{nil, false, nil}}
 	for len(work) > 0 {
 		item := work[len(work)-1]
 		work = work[:len(work)-1]
